@@ -2,7 +2,7 @@
 (public API only) on a fresh sqlite file in the cwd and reports, per operation, the concretised model operations
 (environment inputs: provider answers, selected inputs, produced transaction data) and the observations.
 
-request : hist <kind> <hid> <op>,<op>,...          kind: hd | hdl | hdp | single | ms
+request : hist <kind> <hid> <op>,<op>,...          kind: hd | hdl | hdp | single | ms | ms3 | ms3l | ms3p
 answer  : one JSON line  {"steps": [{"op":..,"mops":[..],"err":..,"obs":{..}}, ...], "final": {...}}
 
 Accounts / networks: na = new_account(), nn = new_account(network='litecoin').  An operation may end in ":<A>", an
@@ -40,6 +40,10 @@ transactions), reser extended by version, locktime, sequences, amounts of the re
 Kind flags (after "+"): f  first reading in a forked process; m  the provider answers with SEVERAL outputs per
 transaction id (every address is paid by output <n(address)> of two shared transactions); x  transaction_delete of
 a transaction id which another wallet of the file holds too is attempted (recorded finding delete_shared_txid).
+Round 4: kinds ms3 / ms3l / ms3p (2-of-3 multisig, p2wsh / p2sh / p2sh-p2wsh); observation fields ind (the inputs of
+every transaction reloaded through the live object in detail: address, script type, witness type, sequence, value,
+signatures required, public keys IN ORDER, redeem script), ind2 (the same through a second Wallet object), ind_sent
+(the same of the transaction objects at the moment they were stored / sent).
 """
 import sys, os, json, logging, hashlib, random, gc, re
 sys.path.insert(0, os.path.dirname(os.path.abspath(__file__)))
@@ -111,7 +115,10 @@ BW.Service = RecService
 WT = {'hd': 'segwit', 'hdl': 'legacy', 'hdp': 'p2sh-segwit', 'single': 'segwit', 'ms': 'segwit',
       # wallets WITHOUT key material: a single-key wallet made from an address string (legacy / segwit address), from
       # a public key only, an HD wallet made from the account's extended public key
-      'addr': 'segwit', 'addrl': 'legacy', 'singlep': 'segwit', 'hdw': 'segwit'}
+      'addr': 'segwit', 'addrl': 'legacy', 'singlep': 'segwit', 'hdw': 'segwit',
+      # round 4: 2-of-3 multisig (this wallet holds the first private key, a second one is passed when signing) whose
+      # BIP67-sorted key order differs from the cosigner order for most addresses: p2wsh, p2sh, p2sh-p2wsh
+      'ms3': 'segwit', 'ms3l': 'legacy', 'ms3p': 'p2sh-segwit'}
 
 
 def pool_txid(slot):
@@ -262,12 +269,28 @@ def tx_view(st, t, full, defer=False):
     return s
 
 
-def txs_view(st, w, full, ids=None, defer=False):
+def ind_view(t):
+    """Round 4: the INPUTS of a transaction object in detail, one text per input: index / address / script type /
+    witness type / sequence / value / signatures required / public keys in the object's order / redeem script."""
+    ins = []
+    for i in sorted(t.inputs, key=lambda i: i.index_n):
+        ks = []
+        for k in i.keys or []:
+            ks.append(getattr(k, 'public_hex', None) or '?')
+        ins.append('%d/%s/%s/%s/%d/%d/%d/%s/%s' % (i.index_n, i.address or '-', i.script_type or '-', i.witness_type or '-',
+                                                  i.sequence, i.value or 0, i.sigs_required or 0, '.'.join(ks) or '-',
+                                                  i.redeemscript.hex() if i.redeemscript else '-'))
+    return '%s~%s' % (t.txid, ';'.join(ins) or '-')
+
+
+def txs_view(st, w, full, ids=None, defer=False, detail=None):
     r = []
     for txid in sorted(st.txids if ids is None else ids):
         t = w.transaction(txid)
         if t is not None:
             r.append(tx_view(st, t, full, defer))
+            if detail is not None:
+                detail.append(ind_view(t))
     return ','.join(sorted(r))
 
 
@@ -368,14 +391,20 @@ def observe(st, full):
         kl = w.utxos(key_id=kid)
         ku.append('%d:%d:%d:%d' % (kid, sum(u['value'] for u in kl), len(kl), sum(1 for u in kl if u['key_id'] != kid)))
     o['ku'] = ','.join(ku)
-    o['txs'] = txs_view(st, w, full)
+    det = []
+    o['txs'] = txs_view(st, w, full, detail=det)
+    # round 4: the inputs of every reloaded transaction in detail, and of the objects that were sent / stored
+    o['ind'] = ','.join(det)
+    o['ind_sent'] = ','.join(v for k, v in sorted(getattr(st, 'sent_ind', {}).items()))
     w3 = open_wallet(st)
     o['kb'] = kb_view({k.id: k.balance for k in w3.keys()})
     if full:
         o['bal2'] = str(int(w3.balance()))
         o['utxos2'] = utxos_view(w3.utxos())
         o['kb2'] = kb_view({k.id: k.balance for k in w3.keys()})
-        o['txs2'] = txs_view(st, w3, True)
+        det2 = []
+        o['txs2'] = txs_view(st, w3, True, detail=det2)
+        o['ind2'] = ','.join(det2)
         # re-serialisation of every reloaded transaction object (the stored blob alone would hide a lossy reload)
         rs = []
         for txid in sorted(st.txids):
@@ -418,6 +447,12 @@ def store_op(st, t, sent, mops):
     """The transaction row is filed where the library files it (t.account_id)."""
     ins, outs, raw = tx_tokens(st, t)
     touch(st, t.txid)
+    if not hasattr(st, 'sent_ind'):
+        st.sent_ind = {}
+    try:
+        st.sent_ind[t.txid] = ind_view(t)        # the inputs of the object as it was stored / sent
+    except Exception:
+        pass
     if sent:
         for i in t.inputs:
             touch(st, i.prev_txid.hex())
@@ -757,14 +792,17 @@ def create_wallet(sh, kind, hid, how):
     st.privs = None
     wt = WT[kind]
     seed = seed_of(hid, how)
-    if kind == 'ms':
-        # 2-of-2: this wallet holds one private key, the cosigner's private key is passed when signing
+    if kind.startswith('ms'):
+        # 2-of-2 / 2-of-3: this wallet holds one private key, a cosigner's private key is passed when signing
         k1 = HDKey.from_seed(seed, network=NW, witness_type=wt, multisig=True)
         k2 = HDKey.from_seed(hashlib.sha256(seed).digest(), network=NW, witness_type=wt, multisig=True)
         if how == 'c':
             keys, st.privs = [k1.public_master(multisig=True), k2], [k1]
         else:
             keys, st.privs = [k1, k2.public_master(multisig=True)], [k2]
+        if kind.startswith('ms3'):
+            k3 = HDKey.from_seed(hashlib.sha256(seed + b'third').digest(), network=NW, witness_type=wt, multisig=True)
+            keys.append(k3.public_master(multisig=True))
         w = Wallet.create(st.name, keys=keys, sigs_required=2, network=NW, witness_type=wt, db_uri=st.uri)
         w.new_key()
     elif kind == 'single':
